@@ -2,6 +2,10 @@
 //! held to "peak live allocation <= small multiple of the input" (C02, C12).
 use std::alloc::{GlobalAlloc, Layout, System};
 use std::cell::Cell;
+use std::sync::atomic::{AtomicIsize, Ordering};
+
+/// live bytes of the whole process (relaxed; only used by the memory watchdog)
+pub static PROCESS_LIVE: AtomicIsize = AtomicIsize::new(0);
 
 thread_local! {
     static LIVE: Cell<isize> = const { Cell::new(0) };
@@ -27,10 +31,12 @@ unsafe impl GlobalAlloc for Counting {
                 }
             });
         });
+        PROCESS_LIVE.fetch_add(l.size() as isize, Ordering::Relaxed);
         System.alloc(l)
     }
     unsafe fn dealloc(&self, p: *mut u8, l: Layout) {
         let _ = LIVE.try_with(|c| c.set(c.get() - l.size() as isize));
+        PROCESS_LIVE.fetch_sub(l.size() as isize, Ordering::Relaxed);
         System.dealloc(p, l)
     }
     unsafe fn realloc(&self, p: *mut u8, l: Layout, new: usize) -> *mut u8 {
@@ -43,6 +49,7 @@ unsafe impl GlobalAlloc for Counting {
                 }
             });
         });
+        PROCESS_LIVE.fetch_add(new as isize - l.size() as isize, Ordering::Relaxed);
         System.realloc(p, l, new)
     }
 }
